@@ -37,6 +37,10 @@ def pivot():
     ], serialize_all="kebab-case", note="fields + message; message next to serialize/to_string; serialize_all"))
     S.append(EnumSpec("AllMsg", [U("A", message="a", detailed_message="A", docs=[" da"]), U("B", message="b", detailed_message="B", docs=[" db"])],
                       note="every variant has every text (no wildcard arm is generated)"))
+    S.append(EnumSpec("DisAttr", [
+        U("A", message="ma"), U("H1", disabled=True, message="m", serialize=["h1"], flags_last=True), U("B", docs=[" db"]),
+        U("H2", disabled=True, detailed_message="d2", attr_style="split"), U("C", message="mc", attr_style="trailing"),
+    ], note="`disabled` after key = value items in the same attribute / split attributes / trailing comma"))
     S.append(EnumSpec("DisEnds", [U("First", disabled=True, message="x"), U("Mid", message="mid", docs=[" md"]), U("Last", disabled=True, docs=[" l"])],
                       serialize_all="SCREAMING_SNAKE_CASE", note="disabled in first and last position, serialize_all on their serializations"))
     return S
